@@ -412,6 +412,7 @@ def handleType (_c : Ctx) (cmd : List Bytes) : Prog Res :=
     | .hash _ => .ret (.ok (simpleStr (b "hash")))
     | .set _ _ => .ret (.ok (simpleStr (b "set")))
     | .zset _ _ => .ret (.ok (simpleStr (b "zset")))
+    | .ilist _ => .ret (.ok (simpleStr (b "list")))
   | _ => .ret (.err wrongArgs)
 
 /-! ### string module (internal/modules/string/commands.go) -/
